@@ -87,3 +87,15 @@ Theorem C02_source_bad_response_signature_fatal : forall parse dsig decrypt cfg 
   exists e, G_ValidateEncodedResponse parse dsig (decrypt_assertions decrypt) cfg now enc = PVal (Err e) /\ e <> EMissingSignature.
 Proof. exact source_bad_root_signature_fatal. Qed.
 Print Assumptions C02_source_bad_response_signature_fatal.
+
+(* source tie for the first mechanism of C02: decode_response.go validationContext / validateElementSignature, re-translated
+   from /repo on every run (GenVctx.v).  Every signature check goes to goxmldsig with a context built for that call from the
+   configured certificate store and the SP's injected clock; a cached context, another clock or a filtered / wrapped store
+   changes the translated term. *)
+From V Require Import GenPreludeV GenVctx P_GenVctx.
+Theorem C02_source_validation_context_is_configured_store_and_clock : forall validate sp now el,
+  G_validationContext sp now = PVal (Some {| vc_store := vs_store sp; vc_id_attribute := "ID"; vc_clock := vs_clock sp |}) /\
+  G_validateElementSignature validate sp now el
+  = PVal (res_some (validate {| vc_store := vs_store sp; vc_id_attribute := "ID"; vc_clock := vs_clock sp |} el)).
+Proof. intros validate sp now el. exact (conj (G_validationContext_is_model sp now) (G_validateElementSignature_is_model validate sp now el)). Qed.
+Print Assumptions C02_source_validation_context_is_configured_store_and_clock.
